@@ -6,7 +6,7 @@
    calcPATSectionLength are re-translated from the source on every run. *)
 From Coq Require Import ZArith List Lia.
 Require Import Base.Bits Base.Iter Base.Wr Gen.Consts Gen.Types Gen.Preds Model.Packet Model.Psi.
-Require Import Spec.CrcSpec Spec.PsiSpec Proofs.PsiProofs Proofs.PsiParse.
+Require Import Model.Desc Spec.CrcSpec Spec.PsiSpec Proofs.PsiProofs Proofs.PsiParse Proofs.PsiParsePmt.
 Import ListNotations.
 Open Scope Z_scope.
 
@@ -89,6 +89,48 @@ Theorem C13_pat_delivered : forall p filler ssi pb ext ver cni sn lsn progs fp p
 Proof. exact pat_delivered. Qed.
 Print Assumptions C13_pat_delivered.
 
+(* C13_parse_pmt: the same for every PMT content -- any number of elementary streams (induction over the list),
+   any stream types, 13-bit PIDs, any program / elementary-stream descriptor loops -- with the descriptor loops
+   ABSTRACTED: desc_enc relates a descriptor list to its encoding (C14's reference encoder), and the two premises
+   are C14's statements that such an encoding is bytes of less than 4096 and that parseDescriptors inverts the
+   loop `reserved(4) length(12) bytes` wherever it lies in a buffer.  Everything else -- header, syntax header,
+   PCR PID, stream loop bounded by the section end, CRC gate, seek -- is proved here.  pmt_sec_parses makes PMT
+   sections usable in C13_multi. *)
+Theorem C13_parse_pmt : forall (desc_enc : list Descriptor -> list Z -> Prop),
+  (forall ds bytes, desc_enc ds bytes -> bytes_ok bytes /\ Z.of_nat (length bytes) < 4096) ->
+  (forall ds bytes i r, desc_enc ds bytes -> at_ i (spec_desc_loop bytes ++ r) ->
+     parse_descriptors i = Ok (ds, mk_iter (ibs i) (ioff i + 2 + Z.of_nat (length bytes)))) ->
+  forall p filler ssi pb ext ver cni sn lsn pcr pds pbytes xs,
+  0 <= p < 256 -> Z.of_nat (length filler) = p -> pmt_wf desc_enc ext ver sn lsn pcr pds pbytes xs ->
+  parse_psi_data_bytes (p :: filler ++ spec_pmt_section ssi pb ext ver cni sn lsn pcr pbytes (map stream_spec xs)) =
+  Ok {| PSIData_PointerField := p;
+        PSIData_Sections := [pmt_section_value ssi pb ext ver cni sn lsn pcr pds pbytes xs] |}.
+Proof. exact parse_pmt_unit. Qed.
+Print Assumptions C13_parse_pmt.
+
+Theorem C13_pmt_section_parses : forall (desc_enc : list Descriptor -> list Z -> Prop),
+  (forall ds bytes, desc_enc ds bytes -> bytes_ok bytes /\ Z.of_nat (length bytes) < 4096) ->
+  (forall ds bytes i r, desc_enc ds bytes -> at_ i (spec_desc_loop bytes ++ r) ->
+     parse_descriptors i = Ok (ds, mk_iter (ibs i) (ioff i + 2 + Z.of_nat (length bytes)))) ->
+  forall ssi pb ext ver cni sn lsn pcr pds pbytes xs, pmt_wf desc_enc ext ver sn lsn pcr pds pbytes xs ->
+  sec_parses (spec_pmt_section ssi pb ext ver cni sn lsn pcr pbytes (map stream_spec xs))
+             (pmt_section_value ssi pb ext ver cni sn lsn pcr pds pbytes xs).
+Proof. exact pmt_sec_parses. Qed.
+Print Assumptions C13_pmt_section_parses.
+
+(* C13_parse_pmt_nodesc: the premises of C13_parse_pmt are satisfiable, and for PMTs whose descriptor loops are
+   empty nothing is left as a premise: any number of streams up to 200, every stream_type and PID value. *)
+Theorem C13_parse_pmt_nodesc : forall p filler ssi pb ext ver cni sn lsn pcr (xs : list (Z * Z)),
+  0 <= p < 256 -> Z.of_nat (length filler) = p ->
+  0 <= ext < 2 ^ 16 -> 0 <= ver < 32 -> 0 <= sn < 256 -> 0 <= lsn < 256 -> 0 <= pcr < 2 ^ 13 ->
+  Forall (fun x => 0 <= fst x < 256 /\ 0 <= snd x < 2 ^ 13) xs -> (length xs <= 200)%nat ->
+  let streams := map (fun x => (fst x, snd x, @nil Descriptor, @nil Z)) xs in
+  parse_psi_data_bytes (p :: filler ++ spec_pmt_section ssi pb ext ver cni sn lsn pcr [] (map stream_spec streams)) =
+  Ok {| PSIData_PointerField := p;
+        PSIData_Sections := [pmt_section_value ssi pb ext ver cni sn lsn pcr [] [] streams] |}.
+Proof. exact parse_pmt_unit_nodesc. Qed.
+Print Assumptions C13_parse_pmt_nodesc.
+
 (* non-vacuity: the hypotheses are satisfiable and the statements evaluate as claimed on a concrete PAT with
    edge values; two PAT sections followed by stuffing give two sections and the stop marker *)
 Example C13_example_wf : pat_wf 65535 31 255 0 [(0, 16); (1, 4096); (65535, 8191)].
@@ -106,4 +148,11 @@ Example C13_example_multi :
   | Ok d => (length (PSIData_Sections d) =? 3)%nat
   | _ => false
   end = true.
+Proof. vm_compute. reflexivity. Qed.
+
+Example C13_example_pmt :
+  parse_psi_data_bytes (0 :: spec_pmt_section true false 1 3 true 0 0 256 [] [(27, 256, []); (15, 8191, [])]) =
+  Ok {| PSIData_PointerField := 0;
+        PSIData_Sections := [pmt_section_value true false 1 3 true 0 0 256 [] []
+                               [(27, 256, [], []); (15, 8191, [], [])]] |}.
 Proof. vm_compute. reflexivity. Qed.
